@@ -83,6 +83,38 @@ pub fn check_cert_profile(c: &x509::Cert, spec: &CertSpec) -> Result<(), String>
 			return Err("empty nameConstraints value is encoded".into());
 		}
 	}
+	// The MUSTs speak of "CA certificates", "a certificate with an empty subject": what the
+	// certificate is follows from the parameters, so the extension each clause is about must be
+	// there in the first place (a clause is not met by leaving the extension out).
+	if matches!(spec.is_ca, IsCaSpec::CaUnconstrained | IsCaSpec::CaConstrained(_)) {
+		let bc = x509::find_ext(&c.extensions, x509::OID_BC);
+		if !matches!(bc.as_slice(), [e] if e.critical && matches!(e.value, ExtValue::BasicConstraints { ca: true, .. })) {
+			return Err(format!("a CA certificate must carry one critical basicConstraints with cA TRUE (found {})", bc.len()));
+		}
+		let ski = x509::find_ext(&c.extensions, x509::OID_SKI);
+		if !matches!(ski.as_slice(), [e] if !e.critical) {
+			return Err(format!("a CA certificate must carry one non-critical subjectKeyIdentifier (found {})", ski.len()));
+		}
+	}
+	if !spec.sans.is_empty() {
+		let san = x509::find_ext(&c.extensions, x509::OID_SAN);
+		let empty_subject = spec.dn.effective().is_empty();
+		if !matches!(san.as_slice(), [e] if e.critical == empty_subject) {
+			return Err(format!("requested subjectAltName must be present once, critical={empty_subject} (found {})", san.len()));
+		}
+	}
+	if matches!(&spec.name_constraints, Some(nc) if !(nc.permitted.is_empty() && nc.excluded.is_empty())) {
+		let nc = x509::find_ext(&c.extensions, x509::OID_NC);
+		if !matches!(nc.as_slice(), [e] if e.critical) {
+			return Err(format!("requested nameConstraints must be present once and critical (found {})", nc.len()));
+		}
+	}
+	if spec.use_aki {
+		let aki = x509::find_ext(&c.extensions, x509::OID_AKI);
+		if !matches!(aki.as_slice(), [e] if !e.critical) {
+			return Err(format!("requested authorityKeyIdentifier must be present once and non-critical (found {})", aki.len()));
+		}
+	}
 	Ok(())
 }
 
@@ -164,6 +196,98 @@ pub fn check_fresh_key(_: &FreshKeyCase, _: &mut CaseInfo) -> Result<(), String>
 	Ok(())
 }
 
+// ---------------------------------------------------------------------------------------------
+// The automatic serial is cut from SHA-256 of the subject's public key bytes. A remote key's
+// public key is opaque to rcgen, so 32-byte keys can be *searched* for any digest prefix: the sweep
+// covers every value of the two leading digest octets (which decide sign handling, leading-zero
+// stripping and the encoded length), thorough also rare three-octet patterns.
+
+#[derive(Clone, Copy, Debug, Serialize, Deserialize, PartialEq, Eq, Hash)]
+pub struct SerialKeyCase {
+	pub counter: u64,
+}
+
+pub fn serial_sweep_public(counter: u64) -> Vec<u8> {
+	let mut v = b"rv automatic serial sweep\0\0\0\0\0\0\0".to_vec();
+	v.truncate(24);
+	v.extend(counter.to_be_bytes());
+	v
+}
+
+pub fn serial_sweep_cases(cfg: &RunCfg) -> Vec<SerialKeyCase> {
+	let mut found: Vec<Option<u64>> = vec![None; 65536];
+	let mut left = 65536usize;
+	let mut c = 0u64;
+	while left > 0 {
+		let d = openssl::sha::sha256(&serial_sweep_public(c));
+		let slot = &mut found[(d[0] as usize) << 8 | d[1] as usize];
+		if slot.is_none() {
+			*slot = Some(c);
+			left -= 1;
+		}
+		c += 1;
+	}
+	let mut v: Vec<SerialKeyCase> = found.into_iter().map(|c| SerialKeyCase { counter: c.unwrap() }).collect();
+	// digests beginning (00|80) 00 xx with xx at a sign/zero boundary: about 2^-21 of all keys
+	let span: u64 = if cfg.tier == Tier::Thorough { 1 << 27 } else { 1 << 24 };
+	let threads = 16u64;
+	let extra: Vec<u64> = std::thread::scope(|s| {
+		let hs: Vec<_> = (0..threads)
+			.map(|t| {
+				s.spawn(move || {
+					let mut out = Vec::new();
+					let mut c = (1u64 << 32) + t;
+					while c < (1u64 << 32) + span {
+						let d = openssl::sha::sha256(&serial_sweep_public(c));
+						if d[0] & 0x7f == 0 && d[1] == 0 && matches!(d[2], 0x00 | 0x01 | 0x7f | 0x80 | 0xff) {
+							out.push(c);
+						}
+						c += threads;
+					}
+					out
+				})
+			})
+			.collect();
+		hs.into_iter().flat_map(|h| h.join().unwrap()).collect()
+	});
+	let mut extra = extra;
+	extra.sort();
+	v.extend(extra.into_iter().map(|counter| SerialKeyCase { counter }));
+	v
+}
+
+#[cfg(feature = "crypto")]
+pub fn serial_sweep_cert(c: &SerialKeyCase, info: &mut CaseInfo) -> Result<Vec<u8>, String> {
+	let public = serial_sweep_public(c.counter);
+	let d = openssl::sha::sha256(&public);
+	info.nontrivial = true;
+	info.class(format!(
+		"digest-prefix:{}",
+		match (d[0], d[1]) {
+			(0x00, 0x00) | (0x80, 0x00) => "two-zero-octets-after-masking",
+			(0x00, x) | (0x80, x) if x < 0x80 => "zero-octet-then-positive",
+			(0x00, _) | (0x80, _) => "zero-octet-then-high-bit",
+			(x, _) if x & 0x80 != 0 => "top-bit-set",
+			_ => "plain",
+		}
+	));
+	let key = crate::keys::opaque_key(public, &rcgen::PKCS_ED25519)?;
+	let cert = rcgen::CertificateParams::default().self_signed(&key).map_err(|e| format!("self_signed failed: {e}"))?;
+	Ok(cert.der().to_vec())
+}
+
+#[cfg(feature = "crypto")]
+pub fn check_serial_sweep(c: &SerialKeyCase, info: &mut CaseInfo) -> Result<(), String> {
+	let der = serial_sweep_cert(c, info)?;
+	let (cert, _) = decode_cert(&der)?;
+	check_auto_serial(&cert.serial)
+}
+
+#[cfg(not(feature = "crypto"))]
+pub fn check_serial_sweep(_: &SerialKeyCase, _: &mut CaseInfo) -> Result<(), String> {
+	Ok(())
+}
+
 pub fn check_crl_case(case: &CrlCase, info: &mut CaseInfo) -> Result<(), String> {
 	info.nontrivial = case.crl.revoked.is_empty() || case.crl.idp.is_some() || !case.crl.revoked.is_empty();
 	info.class(if case.crl.revoked.is_empty() { "crl:no-entries" } else { "crl:entries" });
@@ -230,13 +354,14 @@ fn conformant_cert_case() -> BoxedStrategy<CertCase> {
 pub fn def() -> PropertyDef {
 	PropertyDef {
 		id: "C05",
-		rule: "Profile-conformant parameter sets (explicit serials positive/non-zero/<= 20 octets, non-empty URI lists, custom OIDs distinct from standard ones) over the C02/C07/C08 spaces -> harness decoder -> predicates for each structural MUST; automatic serial explored over subject keys derived deterministically from generated seeds (Ed25519, P-256, P-384). Non-trivial = at least one extension-bearing field (certificates), every CRL/CSR/fresh-key case; the class with SHA-256 top bit set is reported.",
+		rule: "Profile-conformant parameter sets (explicit serials positive/non-zero/<= 20 octets, non-empty URI lists, custom OIDs distinct from standard ones) over the C02/C07/C08 spaces -> harness decoder -> predicates for each structural MUST; automatic serial explored over subject keys derived deterministically from generated seeds (Ed25519, P-256, P-384) and, exhaustively, over all 65 536 values of the two leading octets of the key digest it is cut from (32-byte opaque remote keys searched for each prefix; plus rare three-octet patterns such as 00 00 00 / 80 00 7f). Each clause also requires the extension it speaks of to be present when the parameters make the certificate a CA / give it alternative names / name constraints / an AKI. Non-trivial = at least one extension-bearing field (certificates), every CRL/CSR/fresh-key case; the class with SHA-256 top bit set is reported.",
 		assumptions: vec!["the harness decoder; OpenSSL EC arithmetic to derive fresh keys from seeds"],
 		subs: vec![
 			prop_sub("cert", 60_000, 800_000, conformant_cert_case, check_cert_case),
 			prop_sub("auto-serial", 30_000, 300_000, || {
 				(0u8..3, proptest::collection::vec(any::<u8>(), 32)).prop_map(|(alg, seed)| FreshKeyCase { alg, seed: Hex(seed) }).boxed()
 			}, check_fresh_key),
+			sweep_sub("auto-serial-digest-sweep", serial_sweep_cases, check_serial_sweep),
 			prop_sub("crl", 25_000, 300_000, || crl_case(false, true), check_crl_case),
 			prop_sub("csr", 25_000, 300_000, || csr_case(true), check_csr_case),
 		],
